@@ -38,7 +38,7 @@ type Prog struct {
 	lockEngine *LockEngine
 	LoadS      float64
 
-	InlineSteps []inlineStep // non-empty: this is the helper-inlined view (inlineview.go)
+	InlineSteps []inlineStep             // non-empty: this is the helper-inlined view (inlineview.go)
 	renamedFrom map[string]string        // current "rel.declName" -> reference name it is the renaming of
 	renamedTo   map[string]*ssa.Function // reference FnName -> the function that now carries another name
 
